@@ -149,6 +149,7 @@ class Ownership(Machine):
             if len(names) >= 1:
                 nd = {m[nm].n_dims for nm in names}
                 ctx.require(len(nd) == 1, "manager", "mixed_dimensions", lambda: repr(nd))
+        ctx.out([(c.kind, c.digest, list(c.groups) if c.groups is not None else None) for c in self.pool])
         ctx.state(sorted((c.kind, tuple(c.groups) if c.groups is not None else (), c.d) for c in self.pool))
 
     # ---- construction
